@@ -290,8 +290,14 @@ def m_literal_swap(T, r):
     return T.splice(i, j, lit)
 
 
+def _prefer_user_calls(T, calls, r):
+    """Calls of generated functions (`fnK(...)`) are rarer than `println`/`string_repr`: pick among them 3 times out of 4."""
+    user = [c for c in calls if T.t[c[0]].startswith("fn")]
+    return user if user and r.random() < 0.75 else calls
+
+
 def m_drop_arg(T, r):
-    c = [x for x in T.calls() if x[3]]
+    c = _prefer_user_calls(T, [x for x in T.calls() if x[3]], r)
     if not c:
         return None
     name, o, cl, args = c[r.randrange(len(c))]
@@ -302,7 +308,7 @@ def m_drop_arg(T, r):
 
 
 def m_add_arg(T, r):
-    c = T.calls()
+    c = _prefer_user_calls(T, T.calls(), r)
     if not c:
         return None
     name, o, cl, args = c[r.randrange(len(c))]
@@ -554,8 +560,78 @@ def _apply_units(lines, us):
     return [l for i, l in enumerate(lines) if i not in dead]
 
 
+_KEYWORDS = ("if", "while", "match", "in", "return", "else", "let")
+
+
+def _expr_candidates(src):
+    """Smaller variants of src obtained by simplifying one expression."""
+    T = Toks(src)
+    out = []
+    for i in T.sig:
+        x = T.t[i]
+        if x == "(":
+            j = T.match(i)
+            p = T.tok(i, -1)
+            if j is None or T.in_signature(i) or j == T.nb(i, 1):
+                continue
+            is_call = bool(p) and (p[0].isalnum() or p[0] == "_") and p not in _KEYWORDS
+            if is_call:
+                # f(args) -> the argument itself when there is exactly one (e.g. string_repr(x) -> x), or a literal
+                name = T.nb(i, -1)
+                inner = "".join(T.t[i + 1:j]).strip()
+                if inner and T.tok(name, -1) != "fun":
+                    out.append(T.splice(name, j, inner))
+            else:
+                for lit in ("1", '"s"', "True"):
+                    out.append(T.splice(i, j, lit))
+                inner = "".join(T.t[i + 1:j]).strip()
+                if inner.startswith("(") or _VAR.match(inner):
+                    out.append(T.splice(i, j, inner))
+                # (A op B) -> A or B for the simple case of two operands without nesting at depth 0
+                k, depth, ops = T.pos[i] + 1, 0, []
+                while T.sig[k] != j:
+                    y = T.t[T.sig[k]]
+                    if y in "([{":
+                        depth += 1
+                    elif y in ")]}":
+                        depth -= 1
+                    elif depth == 0 and (y in INT_OPS or y in CMP_OPS or y in EQ_OPS or y in BOOL_OPS or y == "^"):
+                        ops.append(T.sig[k])
+                    k += 1
+                if len(ops) == 1 and T.tok(i, 1) not in ("if", "match"):
+                    out.append(T.splice(i, j, "".join(T.t[i + 1:ops[0]]).strip()))
+                    out.append(T.splice(i, j, "".join(T.t[ops[0] + 1:j]).strip()))
+        elif x == "[":
+            j = T.match(i)
+            if j is None:
+                continue
+            # drop one element of a list literal
+            elems, depth, start = [], 0, None
+            k = T.pos[i] + 1
+            while T.sig[k] != j:
+                t = T.sig[k]
+                y = T.t[t]
+                if start is None:
+                    start = t
+                if y in "([{":
+                    depth += 1
+                elif y in ")]}":
+                    depth -= 1
+                elif y == "," and depth == 0:
+                    elems.append((start, T.sig[k - 1]))
+                    start = None
+                k += 1
+            if start is not None:
+                elems.append((start, T.sig[k - 1]))
+            if len(elems) > 1:
+                for n in range(len(elems)):
+                    rest = [e for m, e in enumerate(elems) if m != n]
+                    out.append(T.splice(i, j, "[" + ", ".join("".join(T.t[a:b + 1]) for a, b in rest) + "]"))
+    return [c for c in out if c != src]
+
+
 class Shrinker:
-    def __init__(self, exe, cls, construct, mutation, budget=400):
+    def __init__(self, exe, cls, construct, mutation, budget=600):
         self.exe, self.cls, self.construct, self.mutation, self.budget = exe, cls, construct, mutation, budget
         self.tests = 0
 
@@ -609,7 +685,24 @@ class Shrinker:
         lines = self.reduce(lines, item_units)
         lines = self.reduce(lines, _line_units)
         lines = self.reduce(lines, item_units)
+        src = self.reduce_exprs("\n".join(lines) + "\n")
+        lines = self.reduce(src.rstrip("\n").split("\n"), item_units)
         return "\n".join(lines) + "\n"
+
+    def reduce_exprs(self, src, rounds=8):
+        """Replace parenthesised groups / call arguments by literals and drop list elements, shortest result first."""
+        for _ in range(rounds):
+            if self.tests >= self.budget:
+                break
+            cands = sorted(set(_expr_candidates(src)), key=lambda c: (len(c), c))[:64]
+            if not cands:
+                break
+            oks = self.test_many(cands)
+            good = [c for c, o in zip(cands, oks) if o]
+            if not good:
+                break
+            src = good[0]
+        return src
 
 
 # --------------------------------------------------------------------------------------
@@ -678,14 +771,18 @@ def _origin(src, name, off, depth=0):
                 if o in HOLE_ORIGINS:
                     return o
         return "for-loop-variable"
-    if kind == "let":
+    if kind == "match-binding":
+        # the scrutinee of the nearest enclosing/preceding `match`
+        k = src.rfind("match ", 0, boff)
+        detail = src[k + 6:boff].split("{")[0] if k >= 0 else ""
+    if kind in ("let", "match-binding"):
         if depth < 6:
             for v in _IDENT.findall(detail):
                 if _VAR.match(v) and v != name:
                     o = _origin(src, v, boff, depth + 1)
                     if o in HOLE_ORIGINS:
                         return o
-        return "unannotated-let"
+        return "unannotated-let" if kind == "let" else kind
     return kind
 
 
@@ -699,11 +796,11 @@ def construct_class(src, outcome, cls, mutation):
     if cls == "unbound-variable":
         m = re.search(r"`([^`]+)`", outcome.get("message") or "")
         name = m.group(1) if m else text
+        if re.search(r"(?m)^let %s\s*=" % re.escape(name), src) and _in_function(src, off):
+            return "toplevel-let-read-in-function"
         b = _binder(src, name, len(src))
         if b is None:
             return "undefined-name"
-        if b[0] == "let" and (b[1] == 0 or src[b[1] - 1] == "\n") and _in_function(src, off) and not _in_function(src, b[1]):
-            return "toplevel-let-read-in-function"
         if _binder(src, name, off) is None:
             return "use-before-definition"
         return "out-of-scope-" + b[0]
